@@ -37,7 +37,7 @@ CHECKS = {
     "C16": dict(
         technique="deterministic simulation: real threads released one at a time by a seeded scheduler that may pre-empt at every instrumented load/store/function entry of the library; own byte-precise race detector, static-storage write detector and per-thread result comparison",
         category="exploration",
-        text="2..8 simulated caller threads run seeded plans over 27 operation kinds (hash, xof incl. custom/fixed variants, the AEADs, incremental AEAD, SIV, ISAP, masked AEADs, PRF/HMAC/KMAC/HKDF/KDF/PBKDF2 in both permutation families, ascon_random, PRNG objects, and every C++ class through its encrypt/decrypt pair; a third of the packets are corrupted before decryption so that failure paths run too) on private objects, on a shared pre-computed ISAP key per variant, shared masked keys, shared constant inputs, shared source states to copy from, adjacent output slices of one buffer, and one shared constant storage descriptor through which the generators of all threads save and load their seeds (a third of these operations meets a failing write). The library's C sources are built with clang load/store/function-entry callbacks, so every memory access of library code is both seen by the harness's race detector (any two accesses of different threads to the same byte with at least one write, since the library has no synchronisation) and a potential pre-emption point decided by the seeded scheduler (Bernoulli rates 1/10..1/5000 or PCT-style change points). Four invariants: no race; no store to the executable's writable static storage (hidden global state); every thread's results equal its plan run alone; every shared object holds, after the run, exactly the bytes it held before the first operation. Passes: c64 (no blind spots), asm (permutation modelled at the call boundary), c32 with 3 shares and direct-xor with 4 shares in quick; all five backends in thorough. Same seed => same switch sequence (checked under contention).",
+        text="2..8 simulated caller threads run seeded plans over 28 operation kinds (hash, xof incl. custom/fixed variants, the AEADs, incremental AEAD, SIV, ISAP, masked AEADs, PRF/HMAC/KMAC/HKDF/KDF/PBKDF2 in both permutation families, ascon_random, PRNG objects, and every C++ class through its encrypt/decrypt pair; a third of the packets are corrupted before decryption so that failure paths run too) on private objects, on a shared pre-computed ISAP key per variant, shared masked keys, shared constant inputs, shared source states to copy from, adjacent output slices and adjacent input slices of one buffer, and one shared constant storage descriptor through which the generators of all threads save and load their seeds (a third of these operations meets a failing write). The library's C sources are built with clang load/store/function-entry callbacks, so every memory access of library code is both seen by the harness's race detector (any two accesses of different threads to the same byte with at least one write, since the library has no synchronisation) and a potential pre-emption point decided by the seeded scheduler (Bernoulli rates 1/10..1/5000 or PCT-style change points). Four invariants: no race; no store to the executable's writable static storage (hidden global state); every thread's results equal its plan run alone; every shared object holds, after the run, exactly the bytes it held before the first operation. Passes: c64 (no blind spots), asm (permutation modelled at the call boundary), c32 with 3 shares and direct-xor with 4 shares in quick; all five backends in thorough. Same seed => same switch sequence (checked under contention).",
         note="Trusted: clang's sanitizer-coverage instrumentation to report every load/store of the C sources; the baton scheduler; races are judged on a clang -O1 build, not the shipped -O3 one (a race is a source-level property). Allocation inside the library is observed through malloc/free hooks. Assembly objects cannot be instrumented: races inside them are out of reach, but any writable static storage they bring along is compared before and after every run.",
         design="§3 W4, §4 C16"),
     "C17": dict(
